@@ -578,6 +578,27 @@ func VerifSpecFrameICMP6(f Frame) bool {
 	return VerifSpecFrame(f) && f.PayloadID == PayloadICMP6 && f.offsetPayload >= 34 && len(f.ether)-f.offsetPayload >= 8
 }
 
+// VerifSpecFrameUDP: what Parse guarantees for the payload classes carried by UDP
+// (DHCP4, DNS, MDNS, LLMNR, NBNS, SSDP, ...): the UDP header is inside the frame and
+// the payload offset is just behind it.
+func VerifSpecFrameUDP(f Frame) bool {
+	return VerifSpecFrame(f) && f.offsetUDP >= 34 && f.offsetPayload == f.offsetUDP+8 && f.offsetPayload <= len(f.ether)
+}
+
+//verif:props C08
+func verif_lemma_parse_establishes_udp(h *Session, p []byte) {
+	vRequires(spec_session_wf(h))
+	f, err := h.Parse(p)
+	if err != nil {
+		return
+	}
+	switch f.PayloadID {
+	case PayloadDHCP4, PayloadDNS, PayloadMDNS, PayloadLLMNR, PayloadNBNS, PayloadSSDP:
+		vCanary()
+		vAssert(VerifSpecFrameUDP(f))
+	}
+}
+
 //verif:props C08
 func verif_lemma_parse_establishes_icmp(h *Session, p []byte) {
 	vRequires(spec_session_wf(h))
